@@ -12,6 +12,9 @@ def program_file(pid, named=True):
 
 
 def stored_file(fid, big=False):
+    if fid == 150:
+        # a file whose DATA is itself a complete cassette recording (a disk holding it must still be taken for a disk)
+        return ct.mkfile("F150", ct.write_tape([ct.mkfile("INNER", [1, 2, 3, 4, 5], 2, 0, 0x3000, 0x3000)]), 2, 0, 0x0E00, 0x0E10)
     n = BIGLEN if big else 12 + fid % 7
     data = [0] * n if big else [(i * 7 + fid) & 255 for i in range(n)]
     return ct.mkfile("F%d" % fid, data, 2, 0, 0x0E00 + fid, 0x0E10)
